@@ -913,6 +913,23 @@ func FixedCases(run *hx.Run) {
 	add(StepDesc{Ins: []Desc{{Topo: tri, Idx: []int{0, 1, 2, 2, 1, 3, 4, 5, 6}, Attrs: []Attr{
 		pos([]int64{0, 0, 0}, []int64{2, 0, 0}, []int64{0, 2, 0}, []int64{8, 8, 0}, []int64{5, 0, 0}, []int64{6, 0, 0}, []int64{6, 1, 0}, []int64{9, 9, 9}), k(10, 11, 12, 13, 14, 15, 16, 17)}}},
 		Op: OpDesc{Op: "slice", Attr: "Position", Data: planeX3}})
+	// attribute-addressed transforms x neutral parameters x {Position, another attribute, no Position at all}
+	vel := func(rows ...[]int64) Attr { return Attr{Arity: 3, Name: "Velocity", Data: rows} }
+	both := Desc{Topo: tri, Idx: []int{0, 1, 2}, Attrs: []Attr{pos([]int64{2, 4, 6}, []int64{4, 0, -2}, []int64{0, 6, 2}), vel([]int64{2, -4, 6}, []int64{8, 2, 0}, []int64{-2, 4, 10})}}
+	noPos := Desc{Topo: tri, Idx: []int{0, 1, 2}, Attrs: []Attr{vel([]int64{2, -4, 6}, []int64{8, 2, 0}, []int64{-2, 4, 10}), k(1, 2, 3)}}
+	for _, in := range []Desc{both, noPos} {
+		for _, attr := range []string{"Velocity", "Position"} {
+			for _, variant := range []string{"", "t"} {
+				add(StepDesc{Ins: []Desc{in}, Op: OpDesc{Op: "scale3", Variant: variant, Attr: attr, V: []int64{0, 0, 0}, V2: []int64{2, 3, -1}}})
+				add(StepDesc{Ins: []Desc{in}, Op: OpDesc{Op: "scale3", Variant: variant, Attr: attr, V: []int64{1, -2, 0}, V2: []int64{1, 1, 1}}})
+				add(StepDesc{Ins: []Desc{in}, Op: OpDesc{Op: "translate", Variant: variant, Attr: attr, V: []int64{0, 0, 0}}})
+				add(StepDesc{Ins: []Desc{in}, Op: OpDesc{Op: "rotate", Variant: variant, Attr: attr, V: []int64{0, 0, 0, 1}}})
+				add(StepDesc{Ins: []Desc{in}, Op: OpDesc{Op: "center", Variant: variant, Attr: attr}})
+			}
+			add(StepDesc{Ins: []Desc{in}, Op: OpDesc{Op: "translate", Variant: "p", Attr: attr, V: []int64{0, 0, 0}}})
+			add(StepDesc{Ins: []Desc{in}, Op: OpDesc{Op: "normalize3", Attr: attr}})
+		}
+	}
 	// append with attributes missing on either side
 	add(StepDesc{Ins: []Desc{
 		{Topo: tri, Idx: []int{2, 1, 0}, Mats: []Mat{{1, 0}}, Attrs: []Attr{pos([]int64{0, 0, 0}, []int64{1, 0, 0}, []int64{0, 1, 0}), k(1, 2, 3)}},
